@@ -26,6 +26,7 @@ F2 == Own("fd", 2)
 I2 == Own("ifsc", 2)
 Other(t) == [set |-> "other", type |-> t, k |-> 0]
 Unk == Own("unknown", 0)
+Unk0 == Own("unknown", 1)          \* an unknown-type packet with an empty body (length exactly 64)
 
 \* index file orders: canonical, reversed, interleaved, with duplicates, with foreign / unknown packets
 IndexOrders ==
@@ -37,7 +38,8 @@ IndexOrders ==
      << Mn, Mn, Cr, F1, F1, I1, F2, I2, I2 >>,
      << Cr, Other("main"), Mn, Other("fd"), F1, I1, Other("creator"), F2, I2 >>,
      << Mn, Unk, F1, I1, Unk, F2, I2, Cr, Other("recv") >>,
-     << I1, F2, Unk, Other("ifsc"), Cr, I2, Mn, F1, Cr >> >>
+     << I1, F2, Unk, Other("ifsc"), Cr, I2, Mn, F1, Cr >>,
+     << Cr, Unk0, Mn, F1, I1, F2, I2, Unk0 >> >>
 
 ExpSchemes == << << 0, 1, 2 >>, << 5, 6, 7 >>, << 1, 7, 300 >>, << 2000, 2001, 4094 >> >>
 
@@ -55,7 +57,7 @@ VolPkts(style, exps) ==
   CASE style = "full" -> << Cr, Mn, F1, I1, F2, I2 >> \o rs
     [] style = "lean" -> rs \o << Cr >>
     [] style = "main" -> << Mn >> \o rs \o << Cr >>
-    [] style = "noisy" -> << Other("recv") >> \o rs \o << Unk, I2, F2, Other("creator"), Mn, Cr, I1, F1 >> \o rs
+    [] style = "noisy" -> << Other("recv") >> \o rs \o << Unk, I2, F2, Other("creator"), Unk0, Mn, Cr, I1, F1 >> \o rs
 
 \* file naming classes for volume files and for the base name / directory
 VolNames == << "vol00+01", "extra", "a b", "x[1]", "s*r", "q?", "b\\k" >>
